@@ -396,11 +396,9 @@ func TestC05(t *testing.T) {
 		rep.Samples = append(rep.Samples, rp)
 		return
 	}
-	ns := []int{3}
+	// four nodes also in the quick tier, there without message deviations (thorough: one deviation on every fourth action)
+	ns := []int{3, 4}
 	bound := 1
-	if thorough() {
-		ns = []int{3, 4}
-	}
 	rep.Bounds = map[string]any{"nodes": ns, "message_deviations": bound, "fault_window": "2s..13s", "settle": c05Settle(3).String(), "actions": c05Actions}
 	rep.Rule = "16 scripted environment actions (partitions symmetric/one-way of 4-10 s, crashes, same-address restarts quick / after detection / remembered at a higher incarnation, leaves, UpdateNode, false accusation) x all executions with <= 1 departure from the default fate of any packet (drop, 700 ms delay, duplicate) or stream dial (refused) inside the fault window; quiet suffix of the settling time with reliable delivery and fair (rotating) peer selection; judged only if the live nodes' member lists still connect them when faults stop"
 	rep.Assumptions = []string{"fair peer selection after the faults stop (the statement's bound cannot hold for an adversarial random source)", "T_settle = 2*(B(C03) + (n-1)^2*PushPullInterval + 2*suspicion timeout)", "<= 4 nodes; one scripted fault + <= bound message faults per history"}
@@ -418,7 +416,7 @@ func TestC05(t *testing.T) {
 			b := bound
 			if n > 3 {
 				b = 0
-				if ai%4 == 0 {
+				if thorough() && ai%4 == 0 {
 					b = 1
 				}
 			}
